@@ -38,8 +38,12 @@ def target_kind(ctx, fi, expr):
         tv = u(v)
         if tv.endswith('.res.descriptor'):
             kinds.add('private-resource')
-        elif tv == "self.datapackage.descriptor['resources']":
+        elif tv == "self.datapackage.descriptor['resources']" or (
+                isinstance(v, ast.Subscript) and isinstance(v.slice, ast.Constant) and v.slice.value == 'resources'
+                and target_kind(ctx, fi, v.value) == {'package'}):
             kinds.add('package-resource')     # loop variable over the package's resource entries
+        elif tv == 'self.datapackage.descriptor':
+            kinds.add('package')
         elif isinstance(v, ast.Name):
             kinds |= target_kind(ctx, fi, v)
         else:
@@ -175,7 +179,7 @@ def check(ctx):
             if k in want:
                 c = st.value
                 ok = isinstance(c, ast.Call) and isinstance(c.func, ast.Attribute) and c.func.attr == 'get_attr' and \
-                    u(c.args[0]) == 'self.datapackage.descriptor' and pseudo(c.args[1]) == want[k]
+                    target_kind(ctx, hd, c.args[0]) == {'package'} and pseudo(c.args[1]) == want[k]
                 run.check(ok, 'R19r', where(repo, st), hd.qualname, st,
                           'stats[%r] is not read from the package descriptor under the configured counter name' % k)
                 want.pop(k)
@@ -186,10 +190,10 @@ def check(ctx):
         f = ctx.N(db.methods.get(name))
         prm = f.params[1]
         sp_ = find_stmt("_q = %s.split('.')" % prm, f.node)
-        ok = len(sp_) == 1 and has_stmt('if %s is None:\n    return' % prm, f.node)
+        ok = len(sp_) == 1 and (has_stmt('if %s is None:\n    return' % prm, f.node) or has_stmt('if %s is None:\n    return None' % prm, f.node))
         # second spelling: *parents, last = prop.split('.'); for part in parents: obj = obj.setdefault(part, {})
         star = find_stmt("(*_ps, _last) = %s.split('.')" % prm, f.node)
-        if not ok and len(star) == 1 and has_stmt('if %s is None:\n    return' % prm, f.node):
+        if not ok and len(star) == 1 and (has_stmt('if %s is None:\n    return' % prm, f.node) or has_stmt('if %s is None:\n    return None' % prm, f.node)):
             ps_ = star[0][1]['_ps']
             walk = find_stmt('for _x in %s:\n    _o = _o2.setdefault(_x, {})' % ps_, f.node) + \
                 find_stmt('for _x in %s:\n    _o = _o2.get(_x, {})' % ps_, f.node)
